@@ -85,8 +85,8 @@ func recSummary(store string, e boltz.Entity) string {
 		return r.Id
 	}
 	org := "null"
-	if r.F["org"] != nil {
-		org = r.F["org"].(string)
+	if r.F[kOrgKey] != nil {
+		org = r.F[kOrgKey].(string)
 	}
 	roles, _ := r.F["roles"].([]string)
 	s := fmt.Sprintf("name=%v,roles=%v,org=%s", r.F["name"], roles, org)
